@@ -115,6 +115,30 @@ func highcmd(w []string) bool {
 			d, plain := h.ShowSchema(sc)
 			fmt.Fprintf(out, "schema %s plain=%v\n", d, plain)
 		})
+	case w[0] == "schemax" && len(w) == 2:
+		// the dump plus what it does not carry: NOT NULL flags and collations of the table's columns
+		guard("schema err ", func() {
+			if err := db.RLock(); err != nil {
+				fmt.Fprintf(out, "schema err lock\n")
+				return
+			}
+			defer db.RUnlock()
+			sc, err := db.Schema(h.Unhex(w[1]))
+			if err != nil {
+				fmt.Fprintf(out, "schema err %s\n", h.ErrKind(err))
+				return
+			}
+			d, _ := h.ShowSchema(sc)
+			var ex []string
+			for _, c := range sc.Columns {
+				n := "0"
+				if c.Null {
+					n = "1"
+				}
+				ex = append(ex, n+":"+hex.EncodeToString([]byte(strings.ToLower(c.Collate))))
+			}
+			fmt.Fprintf(out, "schema %s %s\n", d, strings.Join(ex, ","))
+		})
 	case w[0] == "hselect" && len(w) == 5:
 		limit = atoi(w[3])
 		guard("end err ", func() {
